@@ -101,3 +101,60 @@ def spectrum(kind: str, r: int, rng, kappa: float = 10.0) -> np.ndarray:
     else:
         raise ValueError(kind)
     return np.asarray(s, dtype=float)
+
+
+STRUCT_CLASSES = ["axis0", "axis1", "axis2", "axis3", "herm_psd", "herm_nsd", "herm_indef", "unitary", "diag",
+                  "unit_identity", "rank1", "upper_tri", "lower_tri", "one_nonzero", "real_only", "tiny_row"]
+
+
+def structured(rng, cls: str, m: int, n: int) -> np.ndarray:
+    """Structured m x n quaternion matrices (square classes use n = m)."""
+    if cls.startswith("axis"):
+        c = np.zeros((m, n, 4))
+        c[..., int(cls[4])] = rng.standard_normal((m, n))
+        return refq.qa(c)
+    if cls in ("herm_psd", "herm_nsd", "herm_indef"):
+        B = refq.randq(rng, m, m)
+        G = refq.symmetrize(refq.matmul(refq.herm(B), B))
+        if cls == "herm_psd":
+            return G
+        if cls == "herm_nsd":
+            return -G
+        H, _ = refq.hermitian_with_eigs(rng, np.concatenate([[-3.0 - rng.random()], rng.random(m - 1) * 2.0]) if m > 1 else [-2.0])
+        return H
+    if cls == "unitary":
+        return refq.rand_unitary(rng, m)
+    if cls == "diag":
+        c = np.zeros((m, n, 4))
+        for i in range(min(m, n)):
+            c[i, i] = rng.standard_normal(4)
+        return refq.qa(c)
+    if cls == "unit_identity":
+        c = np.zeros((m, n, 4))
+        a = int(rng.integers(0, 4))
+        for i in range(min(m, n)):
+            c[i, i, a] = 1.0
+        return refq.qa(c)
+    if cls == "rank1":
+        return refq.matmul(refq.randq(rng, m, 1), refq.randq(rng, 1, n))
+    if cls in ("upper_tri", "lower_tri"):
+        c = rng.standard_normal((m, n, 4))
+        mask = np.triu(np.ones((m, n))) if cls == "upper_tri" else np.tril(np.ones((m, n)))
+        return refq.qa(c * mask[..., None])
+    if cls == "one_nonzero":
+        c = np.zeros((m, n, 4))
+        c[int(rng.integers(0, m)), int(rng.integers(0, n))] = rng.standard_normal(4)
+        return refq.qa(c)
+    if cls == "real_only":
+        c = np.zeros((m, n, 4))
+        c[..., 0] = rng.standard_normal((m, n))
+        return refq.qa(c)
+    if cls == "tiny_row":
+        c = rng.standard_normal((m, n, 4))
+        c[int(rng.integers(0, m))] *= 1e-18
+        return refq.qa(c)
+    raise ValueError(cls)
+
+
+def is_square_class(cls: str) -> bool:
+    return cls in ("herm_psd", "herm_nsd", "herm_indef", "unitary")
